@@ -13,7 +13,8 @@ def run(rep, tier, seed):
     ]
     rep.assumptions += [
         "proved: for each of the options of DEFAULTS independently, the value merge_config returns is the one of the highest-ranking source that sets it - command line, then the named server's section, then OFX Home (url, org, fid, brokerid; when an OFX Home id is in effect and the lookup finds it), then the built-in default - for all presence patterns and values (dry-run path, so that a missing URL is not fatal)",
-        "user file over FI database is configparser's read([fi.cfg, user file]) order: bounded run only; persistence (--write then a second run), no password stored, nothing written on a dry run, one default CLIENTUID kept: bounded run on a scratch configuration directory (100 sampled option sets, 300 thorough)",
+        "proved: mk_server_cfg (the body of --write), for each persistable option separately and with the given value, its presence in the user's server section / [DEFAULT] section / the FI database all symbolic: the value given on this run is the value in effect on the next run without command-line options (configparser's layering of read([fi.cfg, user file]) is the spec function; arg2config and its reader are abstract and assumed inverse)",
+        "bounded run on a scratch configuration directory with the real argparser / configparser (100 sampled option sets, 300 thorough; older values pre-seeded in the server section or the [DEFAULT] section): persistence end to end, no password stored, nothing written on a dry run, one default CLIENTUID kept, user file over FI database",
     ]
     t = time.time()
     from ofxtools.scripts import ofxget as g
@@ -26,5 +27,6 @@ def run(rep, tier, seed):
             rep.fail(full, "enumeration", "table invariant violated", 0.0, "top", "CONFIGURABLE")
             rep.violation(full, {"table": "CONFIGURABLE", "clause": name, "python": "import sys\nfrom ofxtools.scripts import ofxget as g\nsys.exit(17 if ('password' in g.CONFIGURABLE or 'userpass' in g.CONFIGURABLE) else 0)\n"})
     run_contracts(rep, "contracts.ofxget_config", tier, seed)
+    run_contracts(rep, "contracts.ofxget_write", tier, seed)
     run_contracts(rep, "contracts.ofxget_config_native", tier, seed)
     replay_known_findings(rep)
